@@ -840,8 +840,9 @@ Proof.
     unfold raised_of, st_of in *; simpl in *. exact IHo.
   - match goal with |- context [exec o ?x] => specialize (IHo x Hrf); destruct (exec o x) as [[s1 r1] t1] end.
     unfold raised_of, st_of in *; simpl in *. exact IHo.
-  - match goal with |- context [exec o ?x] => specialize (IHo x Hrf); destruct (exec o x) as [[s1 r1] t1] end.
-    unfold raised_of, st_of in *; simpl in *. exact IHo.
+  - destruct (mem_k2 (c, k) (t_pre s)) eqn:Hm;
+    match goal with |- context [exec o ?x] => specialize (IHo x Hrf); destruct (exec o x) as [[s1 r1] t1] end;
+    unfold raised_of, st_of in *; simpl in *; try (destruct (mem_k2 (c, k) (t_pre s1))); exact IHo.
   - match goal with |- context [exec o ?x] => specialize (IHo x Hrf); destruct (exec o x) as [[s1 r1] t1] end.
     unfold raised_of, st_of in *; simpl in *. exact IHo.
   - destruct (memo_get k (t_memo s)) eqn:Hit; [split; auto|].
